@@ -67,6 +67,9 @@ typedef struct {
   gchar *username;
   gchar *password;
   GQueue send_queue;
+  /* Reply bytes received so far for the current negotiation step. */
+  guint8 recv_buf[22];
+  gsize recv_len;
 } Socks5Priv;
 
 
@@ -161,6 +164,35 @@ socket_close (NiceSocket *sock)
 }
 
 
+/* Read from the base socket until @want bytes of the current reply are in
+ * priv->recv_buf. Returns 1 once they are, 0 if more data is needed and a
+ * negative value on error. */
+static gint
+socks5_fill (Socks5Priv *priv, gsize want)
+{
+  GInputVector local_recv_buf;
+  NiceInputMessage local_recv_message = { &local_recv_buf, 1, NULL, 0 };
+  gint ret;
+
+  g_assert (want <= sizeof (priv->recv_buf));
+
+  if (priv->recv_len >= want)
+    return 1;
+  if (priv->base_socket == NULL)
+    return -1;
+
+  local_recv_buf.buffer = priv->recv_buf + priv->recv_len;
+  local_recv_buf.size = want - priv->recv_len;
+
+  ret = nice_socket_recv_messages (priv->base_socket, &local_recv_message, 1);
+  if (ret <= 0)
+    return ret;
+
+  priv->recv_len += local_recv_message.length;
+
+  return (priv->recv_len >= want) ? 1 : 0;
+}
+
 static gint
 socket_recv_messages (NiceSocket *sock,
     NiceInputMessage *recv_messages, guint n_recv_messages)
@@ -195,20 +227,16 @@ socket_recv_messages (NiceSocket *sock,
 
     case SOCKS_STATE_INIT:
       {
-        guint8 data[2];
-        GInputVector local_recv_buf = { data, sizeof (data) };
-        NiceInputMessage local_recv_message = { &local_recv_buf, 1, NULL, 0 };
+        const guint8 *data = priv->recv_buf;
 
         nice_debug ("Socks5 state Init");
 
-        if (priv->base_socket) {
-          ret = nice_socket_recv_messages (priv->base_socket,
-              &local_recv_message, 1);
-        }
+        ret = socks5_fill (priv, 2);
 
         if (ret <= 0) {
           return ret;
-        } else if (ret == 1 && local_recv_buf.size == sizeof(data)) {
+        } else {
+          priv->recv_len = 0;
           if (data[0] == 0x05) {
             if (data[1] == 0x02) {
               gchar msg[515];
@@ -258,27 +286,21 @@ socket_recv_messages (NiceSocket *sock,
             /* invalid SOCKS server version */
             goto error;
           }
-        } else {
-          /* read error */
-          goto error;
         }
       }
       break;
     case SOCKS_STATE_AUTH:
       {
-        guint8 data[2];
-        GInputVector local_recv_buf = { data, sizeof (data) };
-        NiceInputMessage local_recv_message = { &local_recv_buf, 1, NULL, 0 };
+        const guint8 *data = priv->recv_buf;
 
         nice_debug ("Socks5 state auth");
-        if (priv->base_socket) {
-          ret = nice_socket_recv_messages (priv->base_socket,
-              &local_recv_message, 1);
-        }
+
+        ret = socks5_fill (priv, 2);
 
         if (ret <= 0) {
           return ret;
-        } else if (ret == 1 && local_recv_buf.size == sizeof(data)) {
+        } else {
+          priv->recv_len = 0;
           if (data[0] == 0x01 && data[1] == 0x00) {
             /* Authenticated */
             goto send_connect;
@@ -291,47 +313,39 @@ socket_recv_messages (NiceSocket *sock,
       break;
     case SOCKS_STATE_CONNECT:
       {
-        guint8 data[22];
-        GInputVector local_recv_buf = { data, sizeof (data) };
-        NiceInputMessage local_recv_message = { &local_recv_buf, 1, NULL, 0 };
+        const guint8 *data = priv->recv_buf;
 
         nice_debug ("Socks5 state connect");
-        if (priv->base_socket) {
-          local_recv_buf.size = 4;
-          ret = nice_socket_recv_messages (priv->base_socket,
-              &local_recv_message, 1);
-        }
+
+        ret = socks5_fill (priv, 4);
 
         if (ret <= 0) {
           return ret;
-        } else if (ret == 1 && local_recv_buf.size == 4) {
+        } else {
           if (data[0] == 0x05) {
             switch (data[1]) {
               case 0x00:
                 if (data[2] == 0x00) {
                   switch (data[3]) {
                     case 0x01: /* IPV4 bound address */
-                      local_recv_buf.size = 6;
-                      ret = nice_socket_recv_messages (priv->base_socket,
-                          &local_recv_message, 1);
-                      if (ret != 1 || local_recv_buf.size != 6) {
-                        /* Could not read server bound address */
+                      ret = socks5_fill (priv, 4 + 6);
+                      if (ret < 0)
                         goto error;
-                      }
+                      if (ret == 0)
+                        return 0;
                       break;
                     case 0x04: /* IPV6 bound address */
-                      local_recv_buf.size = 18;
-                      ret = nice_socket_recv_messages (priv->base_socket,
-                          &local_recv_message, 1);
-                      if (ret != 1 || local_recv_buf.size != 18) {
-                        /* Could not read server bound address */
+                      ret = socks5_fill (priv, 4 + 18);
+                      if (ret < 0)
                         goto error;
-                      }
+                      if (ret == 0)
+                        return 0;
                       break;
                     default:
                       /* Unsupported address type */
                       goto error;
                   }
+                  priv->recv_len = 0;
                   nice_socket_flush_send_queue (priv->base_socket,
                       &priv->send_queue);
                   priv->state = SOCKS_STATE_CONNECTED;
@@ -356,9 +370,6 @@ socket_recv_messages (NiceSocket *sock,
             /* Wrong server version */
             goto error;
           }
-        } else {
-          /* Invalid data received */
-          goto error;
         }
       }
       break;
